@@ -196,8 +196,7 @@ mod properties {
             match property(prop)? {
                 PropertyType::SubscriptionIdentifier => {
                     let (id_len, sub_id) = length(bytes.iter())?;
-                    // TODO: Validate 1 +. Tests are working either way
-                    cursor += 1 + id_len;
+                    cursor += id_len;
                     bytes.advance(id_len);
                     id = Some(sub_id)
                 }
